@@ -241,3 +241,203 @@ theorem newReq_spec (e : KExpr) (h : validExpr e = true) :
     all_goals simp [pure, Except.pure] at hn
 
 end Karp.Sched
+
+/-! ### Resource lists, the `fits` loop, allocatable groups, the filter loop (new NodeClaims) -/
+
+namespace Karp.Sched
+open Karp.Req Karp.Scn
+
+theorem lookup_map_val (a : ResList) (f : String → Int → Int) (k : String) :
+    (a.map (fun p => (p.1, f p.1 p.2))).lookup k = (a.lookup k).map (f k) := by
+  induction a with
+  | nil => rfl
+  | cons p ps ih =>
+    obtain ⟨k', v'⟩ := p
+    simp only [List.map_cons, List.lookup_cons]
+    by_cases h : k == k'
+    · have : k = k' := by simpa using h
+      subst this; simp
+    · simp [h, ih]
+
+theorem lookup_append (a b : ResList) (k : String) :
+    (a ++ b).lookup k = match a.lookup k with | some v => some v | none => b.lookup k := by
+  induction a with
+  | nil => rfl
+  | cons p ps ih =>
+    obtain ⟨k', v'⟩ := p
+    simp only [List.cons_append, List.lookup_cons]
+    by_cases h : k == k'
+    · simp [h]
+    · simp [h, ih]
+
+theorem lookup_filter_key (b : ResList) (q : String → Bool) (k : String) :
+    (b.filter (fun p => q p.1)).lookup k = if q k then b.lookup k else none := by
+  induction b with
+  | nil => simp
+  | cons p ps ih =>
+    obtain ⟨k', v'⟩ := p
+    by_cases hq : q k' = true
+    · simp only [List.filter_cons, hq, if_true, List.lookup_cons]
+      by_cases h : k == k'
+      · have : k = k' := by simpa using h
+        subst this; simp [hq]
+      · simp [h, ih]
+    · simp only [List.filter_cons, hq, Bool.false_eq_true, if_false, List.lookup_cons]
+      by_cases h : k == k'
+      · have : k = k' := by simpa using h
+        subst this; simp [hq, ih]
+      · simp [h, ih]
+
+theorem get_resMerge (a b : ResList) (k : String) : (resMerge a b).get k = a.get k + b.get k := by
+  unfold resMerge ResList.get
+  rw [lookup_append, lookup_map_val a (fun k v => v + (b.lookup k).getD 0)]
+  cases ha : a.lookup k with
+  | some v => simp
+  | none =>
+    simp only [Option.map_none]
+    rw [lookup_filter_key b (fun k => !ResList.hasKey a k)]
+    simp [ResList.hasKey, ha]
+
+theorem lookup_mem' (R : ResList) (k : String) (e : Int) (h : R.lookup k = some e) : (k, e) ∈ R := by
+  induction R with
+  | nil => simp at h
+  | cons q qs ih =>
+    obtain ⟨k0, r0⟩ := q
+    simp only [List.lookup_cons] at h
+    by_cases hk : k == k0
+    · simp only [hk] at h
+      have e1 : k = k0 := by simpa using hk
+      have e2 : r0 = e := by simpa using h
+      rw [e1, e2]; exact List.mem_cons_self
+    · simp only [hk] at h
+      exact List.mem_cons_of_mem _ (ih h)
+
+theorem resFits_le (c t : ResList) (h : resFits c t = true) (k : String) : c.get k ≤ t.get k := by
+  unfold resFits at h
+  rw [Bool.and_eq_true] at h
+  obtain ⟨hneg, hc⟩ := h
+  cases hl : c.lookup k with
+  | some q =>
+    have h1 : decide (q ≤ t.get k) = true := List.all_eq_true.mp hc _ (lookup_mem' c k q hl)
+    have h2 : c.get k = q := by simp [ResList.get, hl]
+    rw [h2]; exact of_decide_eq_true h1
+  | none =>
+    have h2 : c.get k = 0 := by simp [ResList.get, hl]
+    rw [h2]
+    cases ht : t.lookup k with
+    | none => simp [ResList.get, ht]
+    | some q' =>
+      have h1 : decide (0 ≤ q') = true := List.all_eq_true.mp hneg _ (lookup_mem' t k q' ht)
+      have h3 : t.get k = q' := by simp [ResList.get, ht]
+      rw [h3]; exact of_decide_eq_true h1
+
+theorem resFits_merge_le (a b t : ResList) (h : resFits (resMerge a b) t = true) (k : String) :
+    a.get k + b.get k ≤ t.get k := by
+  rw [← get_resMerge]; exact resFits_le _ _ h k
+
+theorem fitsLoop_fst (req : ResList) (R : Reqs) (wk : List String) : ∀ (gs : List AllocGroup) (has : Bool),
+    (fitsLoop req R wk gs has).1 = gs.any (fun g => groupHasOffering g R wk && resFits req g.alloc) := by
+  intro gs
+  induction gs with
+  | nil => intro has; rfl
+  | cons g gs ih =>
+    intro has
+    simp only [fitsLoop, List.any_cons]
+    by_cases h1 : groupHasOffering g R wk = true
+    · by_cases h2 : resFits req g.alloc = true
+      · simp [h1, h2]
+      · simp [h1, h2, ih]
+    · simp [h1, ih]
+
+theorem fitsLoop_snd (req : ResList) (R : Reqs) (wk : List String) : ∀ (gs : List AllocGroup) (has : Bool),
+    (fitsLoop req R wk gs has).2 = (has || gs.any (fun g => groupHasOffering g R wk)) := by
+  intro gs
+  induction gs with
+  | nil => intro has; simp [fitsLoop]
+  | cons g gs ih =>
+    intro has
+    simp only [fitsLoop, List.any_cons]
+    by_cases h1 : groupHasOffering g R wk = true
+    · by_cases h2 : resFits req g.alloc = true
+      · simp [h1, h2]
+      · simp [h1, h2, ih]
+    · simp [h1, ih]
+
+theorem mem_dedup [DecidableEq α] (x : α) : ∀ (l : List α), x ∈ dedup l ↔ x ∈ l := by
+  intro l
+  induction l with
+  | nil => simp [dedup]
+  | cons a as ih =>
+    simp only [dedup, List.mem_cons, List.mem_filter, decide_eq_true_eq, ih]
+    by_cases h : x = a
+    · simp [h]
+    · simp [h]
+
+
+/-- every allocatable group is the set of available offerings with one override pair, with the allocatable of that
+    pair; the pair is the base pair or the pair of some available offering -/
+theorem mem_allocGroups (it : ITRaw) (g : AllocGroup) (h : g ∈ allocGroups it) :
+    ∃ k : OverrideKey, (k = baseKey ∨ ∃ o ∈ it.offerings, o.available = true ∧ overrideKey o = k) ∧
+      g.alloc = computeAlloc it k.1 k.2 ∧
+      g.offerings = ((it.offerings.filter (·.available)).filter (fun o => decide (overrideKey o = k))).map OfferingRaw.toM := by
+  unfold allocGroups at h
+  obtain ⟨k, hk, rfl⟩ := List.mem_map.mp h
+  refine ⟨k, ?_, rfl, rfl⟩
+  rw [mem_dedup] at hk
+  rcases List.mem_cons.mp hk with h0 | h1
+  · exact Or.inl h0
+  · obtain ⟨o, ho, rfl⟩ := List.mem_map.mp h1
+    obtain ⟨ho1, ho2⟩ := List.mem_filter.mp ho
+    exact Or.inr ⟨o, ho1, ho2, rfl⟩
+
+theorem allocGroups_sound (it : ITRaw) (g : AllocGroup) (hg : g ∈ allocGroups it) (om : OfferingM) (hom : om ∈ g.offerings) :
+    ∃ o ∈ it.offerings, o.available = true ∧ o.toM = om ∧ g.alloc = allocFor it o := by
+  obtain ⟨k, _, ha, ho⟩ := mem_allocGroups it g hg
+  rw [ho] at hom
+  obtain ⟨o, hof, rfl⟩ := List.mem_map.mp hom
+  obtain ⟨hof1, hkey⟩ := List.mem_filter.mp hof
+  obtain ⟨hmem, hav⟩ := List.mem_filter.mp hof1
+  have hk : overrideKey o = k := of_decide_eq_true hkey
+  refine ⟨o, hmem, hav, rfl, ?_⟩
+  rw [ha, ← hk]; rfl
+
+theorem allocGroups_complete (it : ITRaw) (o : OfferingRaw) (ho : o ∈ it.offerings) (hav : o.available = true) :
+    ∃ g ∈ allocGroups it, o.toM ∈ g.offerings ∧ g.alloc = allocFor it o := by
+  have hav' : o ∈ it.offerings.filter (·.available) := List.mem_filter.mpr ⟨ho, hav⟩
+  refine ⟨{ alloc := computeAlloc it (overrideKey o).1 (overrideKey o).2,
+            offerings := ((it.offerings.filter (·.available)).filter (fun o' => decide (overrideKey o' = overrideKey o))).map OfferingRaw.toM }, ?_, ?_, rfl⟩
+  · unfold allocGroups
+    refine List.mem_map.mpr ⟨overrideKey o, ?_, rfl⟩
+    rw [mem_dedup]
+    exact List.mem_cons_of_mem _ (List.mem_map.mpr ⟨o, hav', rfl⟩)
+  · exact List.mem_map.mpr ⟨o, List.mem_filter.mpr ⟨hav', by simp⟩, rfl⟩
+
+/-- the base group (no overrides) is always first, also when it has no offering -/
+theorem allocGroups_base_first (it : ITRaw) :
+    ∃ rest, allocGroups it =
+      { alloc := computeAlloc it [] none,
+        offerings := ((it.offerings.filter (·.available)).filter (fun o => decide (overrideKey o = baseKey))).map OfferingRaw.toM } :: rest := by
+  unfold allocGroups
+  simp only [dedup, List.map_cons]
+  exact ⟨_, rfl⟩
+
+theorem mem_filterCandidates (options : List ITM) (groups : List Group) (podKey : String) (pp : List HostPort) (c : Group × ITM) :
+    c ∈ filterCandidates options groups podKey pp ↔
+      c.1 ∈ groups ∧ portsFree (c.1.portsOfOthers podKey) pp = true ∧
+      ∃ n ∈ c.1.its, options.find? (fun it => it.name == n) = some c.2 := by
+  unfold filterCandidates
+  constructor
+  · intro h
+    obtain ⟨g, hg, hin⟩ := List.mem_flatMap.mp h
+    by_cases hp : portsFree (g.portsOfOthers podKey) pp = true
+    · simp only [hp, Bool.not_true, Bool.false_eq_true, if_false] at hin
+      obtain ⟨it, hit, rfl⟩ := List.mem_map.mp hin
+      obtain ⟨n, hn, hf⟩ := List.mem_filterMap.mp hit
+      exact ⟨hg, hp, n, hn, hf⟩
+    · simp [hp] at hin
+  · rintro ⟨hg, hp, n, hn, hf⟩
+    refine List.mem_flatMap.mpr ⟨c.1, hg, ?_⟩
+    simp only [hp, Bool.not_true, Bool.false_eq_true, if_false]
+    exact List.mem_map.mpr ⟨c.2, List.mem_filterMap.mpr ⟨n, hn, hf⟩, rfl⟩
+
+end Karp.Sched
